@@ -86,6 +86,13 @@ CLAIMED["C07"] = ("One clause: every identifier that an explicit-renaming macro 
     "syntax-tree lint over Scheme sources (own s-expression reader; library import/include graph; template walk)",
     "3 C07")
 
+CLAIMED["C08"] = ("One clause: the string-escape letters and character-name tables of the native writer, the native reader, the SRFI-38 writer "
+    "and the SRFI-38 reader agree (reader(writer(c)) = c for every escaped character; both readers map the same letters to the same characters; "
+    "all name tables hold the same name/code pairs). A necessary condition of round-tripping and of the two reader/writer pairs accepting the "
+    "same texts; float formatting, symbol quoting, labels and UTF-8 are not decided.",
+    "sibling-table agreement: case arms / constant initializers extracted from the C AST vs. tables and case clauses read from lib/srfi/38.scm",
+    "3 C08")
+
 # properties planned in DESIGN.md but whose checks are not built yet are listed
 # as not applicable *for now* with that reason, so the manifest never over-claims
 PENDING = {}
